@@ -138,6 +138,22 @@ CLAIMED["C05"] = dict(
          "and parameter recovery from perturbed guesses (conditioning).",
     ref="3 C05")
 
+CLAIMED["C09"] = dict(
+    category="other",
+    technique="abstract evaluation of get_zeta_f / get_rho_f folded per Yukawa type against Table 1 (rational "
+              "identities), information-flow (who-reads / kill-before-use) rules for the ignored inputs",
+    text="The equivalence of the discrete types with the aligned model is reduced to checkable facts: "
+         "get_zeta_f per type equals Table 1 of arXiv:1607.06292 and rho_f per type equals sqrt2 m zeta_f/v + "
+         "Delta_f (general: Pi_f/cos(beta) - sqrt2 m tan(beta)/v) as identities; the Yukawa type is read by no "
+         "other code, so the types can differ from the aligned model only through zeta_f. Ignored inputs cannot "
+         "influence a result: raw zeta_f is read only in the aligned arm, Delta_f only in the non-general "
+         "branch, each non-general arm of init_yukawas overwrites all six Yukawa matrices before reading any; "
+         "validate only warns; constructors copy each basis field into the same-named member.",
+    note=TRUST + "Table 1 is transcribed in rules_c09.TABLE1. Matrix products are compared in a commutative "
+         "normal form (sufficient for the scalar-times-matrix shapes used). Not decided: numerical equality of "
+         "a_mu between parametrisations; aligned <-> general with Pi_f encoding the same couplings.",
+    ref="3 C09")
+
 NOT_APPLICABLE = {
     "C03": "numerical agreement of one-loop results with an independent higher-precision evaluation over all "
            "parameter points: depends on eigen-decomposition values; no code-shape clause of its own "
